@@ -177,6 +177,73 @@ func TestReplayVerif(t *testing.T) {
 	},
 }
 
+func init() {
+	// integer field constructors of package zap: the value parameter comes from the model, the oracle is
+	// "the int64 slot holds the value, sign- or zero-extended" (C03)
+	for _, c := range [][3]string{{"Int64", "int64", "Int64Type"}, {"Int32", "int32", "Int32Type"}, {"Int16", "int16", "Int16Type"}, {"Int8", "int8", "Int8Type"},
+		{"Uint64", "uint64", "Uint64Type"}, {"Uint32", "uint32", "Uint32Type"}, {"Uint16", "uint16", "Uint16Type"}, {"Uint8", "uint8", "Uint8Type"},
+		{"Uintptr", "uintptr", "UintptrType"}, {"Int", "int", "Int64Type"}, {"Uint", "uint", "Uint64Type"}} {
+		name, typ, ft := c[0], c[1], c[2]
+		replayDrivers["zap."+name] = &replayDriver{
+			pkg: ".",
+			terms: func(c *Ctx) (map[string]string, bool) {
+				v := c.paramConst("val")
+				return map[string]string{"Val": v}, v != ""
+			},
+			tmpl: `package zap
+
+import (
+	"testing"
+
+	"go.uber.org/zap/zapcore"
+)
+
+func TestReplayVerif(t *testing.T) {
+	raw := int64({{.Val}}) // model value, printed as a signed 64-bit number
+	val := ` + typ + `(raw)
+	f := ` + name + `("k", val)
+	if f.Key != "k" || f.Type != zapcore.` + ft + ` || f.Integer != int64(val) || f.String != "" || f.Interface != nil {
+		t.Fatalf("REPLAY-VIOLATION ` + name + `(k, %d) = %+v, want Type ` + ft + ` and Integer %d", val, f, int64(val))
+	}
+}
+`,
+		}
+	}
+	replayDrivers["exp/zapslog.convertSlogLevel"] = &replayDriver{
+		pkg: "zapslog", exp: true,
+		terms: func(c *Ctx) (map[string]string, bool) {
+			v := c.paramConst("l")
+			return map[string]string{"L": v}, v != ""
+		},
+		tmpl: `package zapslog
+
+import (
+	"log/slog"
+	"testing"
+
+	"go.uber.org/zap/zapcore"
+)
+
+// slog levels map to the zap level of their band: [8,..) error, [4,8) warn, [0,4) info, below debug.
+func TestReplayVerif(t *testing.T) {
+	l := slog.Level(int64({{.L}}))
+	want := zapcore.DebugLevel
+	switch {
+	case l >= 8:
+		want = zapcore.ErrorLevel
+	case l >= 4:
+		want = zapcore.WarnLevel
+	case l >= 0:
+		want = zapcore.InfoLevel
+	}
+	if got := convertSlogLevel(l); got != want {
+		t.Fatalf("REPLAY-VIOLATION convertSlogLevel(%d) = %v, want %v", int64(l), got, want)
+	}
+}
+`,
+	}
+}
+
 func levelDriver(method, table, dflt string) *replayDriver {
 	return &replayDriver{
 		pkg: "zapcore",
